@@ -53,7 +53,7 @@ PROPS = {
                                         oracles=["conflicting_members_fetched", "released_after_drop", "declared_equals_borrowed"])}),
     "C09": dict(suites={"world": dict(fields=["outcome", "probe", "ledger", "end", "driver-exception"],
                                       oracles=["mismatch_panics", "drop_once", "fail_preserves", "other_slots_untouched", "insert_replaces",
-                                               "remove_empties", "entry_never_overwrites", "entry_inserts"])}),
+                                               "remove_empties", "entry_never_overwrites", "entry_inserts", "presence_agrees"])}),
     "C10": dict(suites={"plan": dict(fields=LAYOUT + ["maxthr"], oracles=["skip_justified", "max_threads"])}),
     "C11": dict(suites={"pool": dict(fields=["pool-model", "builderr", "driver-exception"], oracles=["stage_serialised"])}),
     "C12": dict(suites={"plan": dict(fields=["tl", "tlorder", "sendable", "driver-exception"], oracles=["tl_order", "sendable", "sendable_preserves_plan"]),
@@ -205,7 +205,7 @@ def main():
                     violations.append((o, lvl, case, sname))
             for (f, lvl, m, rl, case) in r.disagreements:
                 if f in sspec["fields"] or f.split(":")[0] in sspec["fields"]:
-                    kf = suites.match_known(known, sname, case, f)
+                    kf = suites.match_known(known, sname, case, f, lvl)
                     if kf is not None:
                         # the run of a program of a listed known-finding class (e.g. KF1: the real dispatch may end in a
                         # borrow panic): its trace is not expected to lie in the model's trace set
@@ -229,7 +229,7 @@ def main():
         # group by oracle; shrink the first of each; classify against known findings
         seen = set()
         for (o, lvl, case, sname) in violations:
-            kf = suites.match_known(known, sname, case, o)
+            kf = suites.match_known(known, sname, case, o, lvl)
             if kf is not None:
                 if kf["id"] not in reported_known:
                     reported_known.add(kf["id"])
@@ -255,7 +255,7 @@ def main():
                 runner = suites.SUITES[sname]
                 r = runner.run("search", seed + 7919, sspec, focus=[d[4] for d in disagreements[:50]])
                 for (o, lvl, case) in r.oracle_failures:
-                    if (o in sspec["oracles"]) and suites.match_known(known, sname, case, o) is None:
+                    if (o in sspec["oracles"] or o.split(":")[0] in sspec["oracles"]) and suites.match_known(known, sname, case, o, lvl) is None:
                         found = (o, lvl, case, sname)
                         break
                 if found:
